@@ -109,7 +109,7 @@ Proof.
   intros A. unfold del_ok.
   pose proof (hview_eq _ _ (ag_h _ _ _ A h)) as (E1 & E2 & E3).
   pose proof (pview_eq _ _ (ag_p _ _ _ A (fst b))) as (F1 & F2 & F4).
-  unfold hp_alive. rewrite E1, E2, F2, F4. intros H.
+  unfold hp_alive. rewrite E1, E2, F1, F2, F4. intros H.
   apply andb_prop in H as [H H']. rewrite H. cbn [andb].
   revert H'. apply orb_mono. apply (ag_bot _ _ _ A).
 Qed.
@@ -140,9 +140,13 @@ Proof.
   { intros p. pose proof (pview_eq _ _ (ag_p _ _ _ A p)) as (_ & E & _). exact E. }
   assert (Hp : forall p, pg_heap (getp c' p) = pg_heap (getp c p)).
   { intros p. pose proof (pview_eq _ _ (ag_p _ _ _ A p)) as (_ & _ & E). exact E. }
-  assert (Hf : forall l, forallb (fun p => own (getp c p) t) l = true -> forallb (fun p => own (getp c' p) t) l = true).
-  { intros l. apply forallb_impl. intros x. rewrite Ho. auto. }
-  destruct fr; cbn [fr_ok]; rewrite ?Ho, ?Hh, ?Hb, ?Ht, ?Hp; auto;
+  assert (Hf : forall h bk l,
+            forallb (fun p => own (getp c p) t && (oN_eqb (pg_heap (getp c p)) (Some h) || oN_eqb (pg_heap (getp c p)) (Some bk))) l = true ->
+            forallb (fun p => own (getp c' p) t && (oN_eqb (pg_heap (getp c' p)) (Some h) || oN_eqb (pg_heap (getp c' p)) (Some bk))) l = true).
+  { intros h bk l. apply forallb_impl. intros x. rewrite Ho, Hp. auto. }
+  assert (Hal : forall p, pg_alive (getp c' p) = pg_alive (getp c p)).
+  { intros p. pose proof (pview_eq _ _ (ag_p _ _ _ A p)) as (E & _ & _). exact E. }
+  destruct fr; cbn [fr_ok]; rewrite ?Ho, ?Hh, ?Hb, ?Ht, ?Hp, ?Hal; auto;
     intros H; rewrite ?andb_true_iff in *; repeat match goal with H : _ /\ _ |- _ => destruct H end;
     repeat split; auto;
     try (match goal with H : _ || absorbing _ _ _ = true |- _ =>
